@@ -41,10 +41,19 @@ def gen_send_shape():
     C.write_gen_file("C05Shape", "\n".join(lines) + "\n")
 
 
+def gen_trans_udpsize():
+    # Lean definitions of UDPMessage.HeaderSize / Size TRANSLATED from the current source
+    # (Hy/Gen/TransUDPSize.lean; quicvarint.Len is a function parameter); Props/C05.lean proves them
+    # equal to Frag.headerSize / Frag.size for every message (headerSize_translation_eq, size_translation_eq)
+    C.gen_translate("UDPSize", ["core/internal/protocol/proxy.go:UDPMessage.HeaderSize",
+                                "core/internal/protocol/proxy.go:UDPMessage.Size"],
+                    externs={"quicvarint.Len": "uint64:int"})
+
+
 CFG = {
     "props_module": "Hy.Props.C05",
     "gen_modules": ["core"],
-    "gen_hooks": [gen_send_shape],
+    "gen_hooks": [gen_send_shape, gen_trans_udpsize],
     "level": "proof",
     "streams": [
         # stateless: Serialize / ParseUDPMessage / FragUDPMessage
